@@ -185,6 +185,18 @@ pub fn handle(line: &str) -> Result<String, String> {
             Ok(p) => format!("(ok {})", quote(&p.to_string())),
             Err(e) => format!("(err {})", quote(&first_line(&e.to_string()))),
         }),
+        ("rt", 1) => Ok(match parse::Program::parse_from_str(a[0].as_atom()?) {
+            // C16 as stated: parse, print, parse again, compare with the tree's own PartialEq
+            Ok(p) => {
+                let printed = p.to_string();
+                match parse::Program::parse_from_str(&printed) {
+                    Ok(q) if q == p => format!("(ok eq {})", quote(&printed)),
+                    Ok(_) => format!("(ok DIFF {})", quote(&printed)),
+                    Err(e) => format!("(ok REPARSE-ERR {} {})", quote(&first_line(&e.to_string())), quote(&printed)),
+                }
+            }
+            Err(e) => format!("(err {})", quote(&first_line(&e.to_string()))),
+        }),
         _ => Err("bad ptree case".into()),
     }
 }
